@@ -2,8 +2,13 @@
    If a table changes so that a safe character is no longer legal at its position
    (e.g. '&' or ';' becomes query-safe), this file stops compiling. *)
 From Boltons Require Import Lib.Prelude Lib.C06_Text Spec.C06_Spec Model.C06_Model Gen.C06_Gen
-  Proofs.C06_Codec Proofs.C06_Quote.
+  Proofs.C06_Codec Proofs.C06_Quote Proofs.C06_QuoteMin.
 Open Scope N_scope.
 
 Lemma gen_tables_ok : tables_ok gen_tables = true.
+Proof. vm_compute. reflexivity. Qed.
+
+(* minimal quoting: every delimiter set is ASCII, its members are escaped by the map, and it contains
+   every character the parser splits on at that position *)
+Lemma gen_delims_ok : delims_ok gen_tables = true.
 Proof. vm_compute. reflexivity. Qed.
